@@ -226,6 +226,22 @@ theorem correlator_step_order :
     Gen.Site.corrPut = ["_remove_expired", "monotonic", "set:_store"] ∧
     Gen.Site.corrGet = ["pop:_store", "_remove_expired"] := by decide
 
+/-- every `await` of a step list comes directly after the step `what` -/
+def awaitsOnlyAfter (what : String) : List String → Bool
+  | a :: b :: rest => (b != "await" || a == what) && awaitsOnlyAfter what (b :: rest)
+  | _ => true
+
+/-- TIE TO THE SOURCE for `control_given_up_only_at_hook` (regenerated on every run, Gen/Site.lean): in `expired` every
+    `await` is the await of a `hook.send_error` call, and a branch without that call awaits nothing; in `_remove_expired`
+    the only `await` is that of `expired`, inside the first loop, after the request was deleted; the two loops over the
+    delivery stores await nothing.  So the sweep can give up control exactly where the turn-level model suspends it. -/
+theorem sweep_awaits_only_the_hook :
+    awaitsOnlyAfter "send_error" Gen.Site.expiredAwaits = true ∧ Gen.Site.expiredAwaits.head? ≠ some "await" ∧
+    "send_error" ∈ Gen.Site.expiredAwaits ∧
+    awaitsOnlyAfter "expired" Gen.Site.removeExpiredAwaits = true ∧
+    Gen.Site.removeExpiredAwaits.filter (· == "await") = ["await"] ∧
+    Gen.Site.removeExpiredAwaits.take 5 = ["for", "del:_store", "expired", "await", "end-for"] := by decide
+
 end SmppVerif.Props.C14
 
 #print axioms SmppVerif.Props.C14.put_is_sweep_then_store
@@ -244,4 +260,5 @@ end SmppVerif.Props.C14
 #print axioms SmppVerif.Props.C14.interleaved_nothing_passed_over
 #print axioms SmppVerif.Props.C14.atomic_sweep_is_uninterrupted_turns
 #print axioms SmppVerif.Props.C14.control_given_up_only_at_hook
+#print axioms SmppVerif.Props.C14.sweep_awaits_only_the_hook
 #print axioms SmppVerif.Props.C14.correlator_step_order
